@@ -233,3 +233,54 @@ Theorem C06_apply_step_example_is_not_degenerate :
 Proof. exact ai_example_facts. Qed.
 Print Assumptions C06_apply_step_example_is_not_degenerate.
 
+(* ---- along every history: the side conditions are an invariant of the reachable states
+   (Proofs/History.v: [state_ok], [op_ok], [run]; one version, identity converter, no ignore
+   configuration; histories of apply / forced apply / update by any number of managers) ---- *)
+From SMD Require Import Spec.RefDiff Proofs.RefDiffBoth Proofs.RefDiffLaws Proofs.RefDiffPresent Proofs.ApplyInv
+  Proofs.RefDiffChar Proofs.ReconcileCurrent Proofs.KeySync Proofs.History.
+Theorem C06_every_reachable_state_is_consistent :
+  forall (c : config) (R : typeref -> Prop) (ver : string) (ops : list hop),
+         setting_ok c R ver ->
+         Forall (op_ok c ver) ops -> state_ok c ver (fst (run c ver ops)) (snd (run c ver ops)).
+Proof. exact reachable_states_ok. Qed.
+Print Assumptions C06_every_reachable_state_is_consistent.
+
+Theorem C06_one_step_preserves_consistency :
+  forall (c : config) (R : typeref -> Prop) (ver : string) (live : value) 
+           (mf : managed) (o : hop),
+         setting_ok c R ver ->
+         state_ok c ver live mf ->
+         op_ok c ver o ->
+         state_ok c ver (fst (hstep c ver (live, mf) o)) (snd (hstep c ver (live, mf) o)).
+Proof. exact step_preserves_state_ok. Qed.
+Print Assumptions C06_one_step_preserves_consistency.
+
+Theorem C06_reachable_objects_are_valid :
+  forall (c : config) (R : typeref -> Prop) (ver : string) (ops : list hop),
+         setting_ok c R ver ->
+         Forall (op_ok c ver) ops ->
+         ops <> [] \/ conforms (schema_of c ver) (tr_of c ver) true VNull = true ->
+         conforms (schema_of c ver) (tr_of c ver) true (fst (run c ver ops)) = true.
+Proof. exact reachable_objects_valid. Qed.
+Print Assumptions C06_reachable_objects_are_valid.
+
+Theorem C06_owned_paths_present_along_every_history :
+  forall (c : config) (R : typeref -> Prop) (ver : string) (ops : list hop) 
+           (m : string) (r : mrec) (p : path),
+         setting_ok c R ver ->
+         Forall (op_ok c ver) ops ->
+         mf_get m (snd (run c ver ops)) = Some r ->
+         wf_path p = true ->
+         ps_has p (mr_set r) = true ->
+         present (schema_of c ver) (tr_of c ver) (fst (run c ver ops)) p = true.
+Proof. exact owned_paths_present_along_histories. Qed.
+Print Assumptions C06_owned_paths_present_along_every_history.
+
+Theorem C06_null_root_needs_care :
+  setting_ok deg_config deg_R "v1" /\
+         Forall (op_ok deg_config "v1") [] /\
+         conforms (schema_of deg_config "v1") (tr_of deg_config "v1") true
+           (fst (run deg_config "v1" [])) = false.
+Proof. exact so_conforms_as_stated_refuted. Qed.
+Print Assumptions C06_null_root_needs_care.
+
